@@ -19,13 +19,16 @@ CHECKS = {
  "C03": dict(
    text="Proof (Coq), partial: the codecs of the file image are inverse - field level (little-endian header fields, variable-length numbers of the data-block index) and "
         "block level: a node block written by the model of _sblk_sync_mm (KV/Codec.v, field offsets regenerated from the source macros) is read back as exactly that node "
-        "(C03_node_block_roundtrip), a data-block header + index written by the model of _kvblk_sync_mm as exactly that index (C03_data_block_index_roundtrip). The reader is "
+        "(C03_node_block_roundtrip), a data-block header + index written by the model of _kvblk_sync_mm as exactly that index (C03_data_block_index_roundtrip), a record "
+        "written as _kvblk_addkv writes it as exactly that key and value, and an image holding the encoding of any chain of nodes as exactly the records of those nodes "
+        "(C03_image_reads_back_partial: the codec half of the reopen identity, for any number of nodes, addresses and contents). The reader is "
         "the independent reader of C06; on every real image it is compared field by field with what the implementation's own block reader reports (level, count, flag, prefix, "
-        "data-block size, stored keys of every node) and every data-block index must be in the canonical form the writer model produces. The reopen identity itself is decided "
+        "data-block size, stored keys, value length and value bytes of every slot of every node) and every data-block index must be in the canonical form the writer model produces. "
+        "That close leaves such an image behind for the in-memory state is decided "
         "per history on the implementation: dump/metadata before close = after reopen over {WAL on/off} x {read-only, read-write} x {trim, no-trim}, read-only sessions refuse "
         "every mutating call, truncate empties the store.",
-   design="5/C03", note=TB + "Partial: reopen_identity, trim_preserves and rdonly_no_effect are stated as open goals in Properties_C03.v, not proved. PROT_READ of the kernel is trusted.",
-   technique="Coq codec round-trip proofs (fields, node block, data-block index) + two readers compared on real images + close/reopen histories against a reference-map oracle"),
+   design="5/C03", note=TB + "Partial: the whole-store reopen_identity (close writes the encoding of the current state), trim_preserves and rdonly_no_effect are stated as open goals in Properties_C03.v, not proved. PROT_READ of the kernel is trusted.",
+   technique="Coq codec round-trip proofs (fields, node block, data-block index, records, whole level-0 chain) + two readers compared on real images + close/reopen histories against a reference-map oracle"),
  "C04": dict(
    text="Proof (Coq) over a model of the WAL protocol at file-effect granularity (Proto.v) and of replay: redo_idempotent, recover_is_prefix_partial, "
         "crash_in_recovery, growth_tears_refuted (the known finding). Tied by predicting the real effect trace, log bytes and main-file bytes from the traced "
